@@ -7,6 +7,7 @@ import (
 	"fmt"
 	"io"
 	"math/big"
+	"strings"
 	"time"
 
 	"go.sia.tech/core/consensus"
@@ -85,6 +86,11 @@ func drawContractOps(t *sim.Tape) []cop {
 	n := t.Range(3, 10)
 	for i := 0; i < n; i++ {
 		k := pick(t, "append", "append", "append", "free", "roots", "fund", "fund", "replenish", "renew", "refresh-full", "refresh-partial", "fund-exact", "fund-over", "expired-prices", "bad-prices-sig", "append-big", "hostile", "hostile-host")
+		if i == n-1 && t.Chance(1, 4) {
+			// the last thing that happens: the renter comes back with a stale price
+			// table and basis when the chain has (nearly or fully) reached the proof height
+			k = pick(t, "late-renew", "late-refresh-full", "late-refresh-partial")
+		}
 		ops = append(ops, cop{kind: k})
 	}
 	for i := range ops {
@@ -545,6 +551,18 @@ func runContractV2(s *Session, ops []cop) {
 			if wantValidateErr {
 				kind = "append"
 			}
+			basis := tip
+			if strings.HasPrefix(kind, "late-") {
+				kind = strings.TrimPrefix(kind, "late-")
+				target := cur.ProofHeight - min(cur.ProofHeight, 24) + uint64(op.r[5]%30)
+				for chain.s.Index.Height < target && chain.s.Index.Height < tip.Height+400 {
+					if chain.mine(nil, nil) != nil {
+						return
+					}
+				}
+				tip = chain.s.Index // what the parties see now; p and basis are the renter's stale ones
+				e.inc("c17.late-request")
+			}
 			e.inc("c17.op." + op.kind)
 			switch kind {
 			case "form":
@@ -841,12 +859,18 @@ func runContractV2(s *Session, ops []cop) {
 						}
 						return nil
 					},
-					"ReviseForAppendSectors": func() error { _, _, err := rhp4.ReviseForAppendSectors(cur, hp, types.Hash256{1}, uint64(1+op.r[0]%3)); return err },
-					"ReviseForFreeSectors":   func() error { _, _, err := rhp4.ReviseForFreeSectors(cur, hp, types.Hash256{1}, 1+op.r[1]%3); return err },
-					"ReviseForSectorRoots":   func() error { _, _, err := rhp4.ReviseForSectorRoots(cur, hp, uint64(1+op.r[2]%1000)); return err },
-					"RPCReadSectorCost":      func() error { hp.RPCReadSectorCost(rhp4.SectorSize); return nil },
-					"RPCWriteSectorCost":     func() error { hp.RPCWriteSectorCost(rhp4.SectorSize); return nil },
-					"RPCVerifySectorCost":    func() error { hp.RPCVerifySectorCost(); return nil },
+					"ReviseForAppendSectors": func() error {
+						_, _, err := rhp4.ReviseForAppendSectors(cur, hp, types.Hash256{1}, uint64(1+op.r[0]%3))
+						return err
+					},
+					"ReviseForFreeSectors": func() error {
+						_, _, err := rhp4.ReviseForFreeSectors(cur, hp, types.Hash256{1}, 1+op.r[1]%3)
+						return err
+					},
+					"ReviseForSectorRoots": func() error { _, _, err := rhp4.ReviseForSectorRoots(cur, hp, uint64(1+op.r[2]%1000)); return err },
+					"RPCReadSectorCost":    func() error { hp.RPCReadSectorCost(rhp4.SectorSize); return nil },
+					"RPCWriteSectorCost":   func() error { hp.RPCWriteSectorCost(rhp4.SectorSize); return nil },
+					"RPCVerifySectorCost":  func() error { hp.RPCVerifySectorCost(); return nil },
 				} {
 					if pn := guardPanic(func() { fn() }); pn != "" {
 						bad("constructor-panic", "%s with host-signed prices that pass HostPrices.Validate (storage %v, collateral %v, ingress %v, egress %v, free sector %v per unit; tip height %d, contract expiration %d) panicked instead of failing cleanly: %s", name, hp.StoragePrice, hp.Collateral, hp.IngressPrice, hp.EgressPrice, hp.FreeSectorPrice, hp.TipHeight, cur.ExpirationHeight, pn)
@@ -923,7 +947,7 @@ func runContractV2(s *Session, ops []cop) {
 				pn := guardPanic(func() {
 					if kind == "renew" {
 						rp := rhp4.RPCRenewContractParams{ContractID: fcid, Allowance: allowance, Collateral: collateral, ProofHeight: max(cur.ProofHeight+1, tip.Height+rhp4.MinContractDuration) + uint64(op.r[4]%100)}
-						r := &rhp4.RPCRenewContractRequest{Prices: p, Renewal: rp, MinerFee: minerFee, Basis: tip, RenterInputs: ins[:1]}
+						r := &rhp4.RPCRenewContractRequest{Prices: p, Renewal: rp, MinerFee: minerFee, Basis: basis, RenterInputs: ins[:1]}
 						verr = r.Validate(host.pk, tip, cur, maxCollateral, maxDuration)
 						req, id = r, rhp4.RPCRenewContractID
 						if verr == nil {
@@ -932,7 +956,7 @@ func runContractV2(s *Session, ops []cop) {
 						}
 					} else {
 						rp := rhp4.RPCRefreshContractParams{ContractID: fcid, Allowance: allowance, Collateral: collateral}
-						r := &rhp4.RPCRefreshContractRequest{Prices: p, Refresh: rp, MinerFee: minerFee, Basis: tip, RenterInputs: ins[:1]}
+						r := &rhp4.RPCRefreshContractRequest{Prices: p, Refresh: rp, MinerFee: minerFee, Basis: basis, RenterInputs: ins[:1]}
 						partial := kind == "refresh-partial"
 						verr = r.Validate(host.pk, tip, cur, maxCollateral, partial)
 						req, id = r, rhp4.RPCRefreshContractID
@@ -1042,7 +1066,9 @@ func runContractV1(s *Session) {
 	if t.Chance(1, 5) {
 		// small contracts: payouts between 2^64 and 10000 x 2^64 hastings, where
 		// the tax inversion works on both 64-bit halves
-		band := func() types.Currency { return types.NewCurrency(uint64(t.Choose(1<<30))<<20|uint64(t.Choose(1<<20)), uint64(t.Range(1, 9999))) }
+		band := func() types.Currency {
+			return types.NewCurrency(uint64(t.Choose(1<<30))<<20|uint64(t.Choose(1<<20)), uint64(t.Range(1, 9999)))
+		}
 		renterPayout, renewPayout = band(), band()
 		hs.ContractPrice = types.NewCurrency64(uint64(t.Choose(30000)))
 		hostCollateral, newCollateral = types.NewCurrency64(uint64(t.Choose(30000))), types.NewCurrency64(uint64(t.Choose(30000)))
